@@ -76,6 +76,33 @@ fn main() {
             // re-run one recorded case (source text + context variables) against the current tree
             let path = arg(&args, "--case").expect("--case");
             let j: serde_json::Value = serde_json::from_str(&std::fs::read_to_string(path).expect("read case")).expect("json");
+            let mut out = std::io::BufWriter::new(std::fs::File::create(&out_path).expect("open out"));
+            if j.get("op").is_some() && j.get("a").is_some() && j.get("form").is_some() {
+                // operator-application record
+                let r = drive_ops::replay_op(&j).unwrap_or(j.clone());
+                writeln!(out, "{}", r).unwrap();
+                out.flush().unwrap();
+                return;
+            }
+            if j.get("kind").is_some() && j.get("text").is_some() {
+                // parser record: parse the text again
+                let src = drive_parse::text_of(&j["text"]);
+                let mut r = j.clone();
+                let mut o = drive_parse::parse_outcome(&src);
+                if j["out"].get("ast").is_none() {
+                    if let Some(m) = o.as_object_mut() { m.remove("ast"); }
+                }
+                r["out"] = o;
+                writeln!(out, "{}", r).unwrap();
+                out.flush().unwrap();
+                return;
+            }
+            if j.get("src").is_none() || j.get("vars").is_none() {
+                // families that are not re-executable from the record alone: validate the record as stored
+                writeln!(out, "{}", j).unwrap();
+                out.flush().unwrap();
+                return;
+            }
             let src = j["src"].as_str().expect("src");
             let mut vars = vec![];
             if let Some(vs) = j["vars"].as_array() {
@@ -83,7 +110,6 @@ fn main() {
                     vars.push((v[0].as_str().unwrap().to_string(), enc::unvalue(&v[1]).expect("value")));
                 }
             }
-            let mut out = std::io::BufWriter::new(std::fs::File::create(&out_path).expect("open out"));
             let id = j["id"].as_u64().unwrap_or(1) as usize;
             match drive_eval::case_for(id, src, &vars) {
                 Some(c) => writeln!(out, "{}", c).unwrap(),
